@@ -7,6 +7,8 @@ import (
 	"bytes"
 	"encoding/binary"
 	"fmt"
+	"os"
+	"runtime/debug"
 	"sort"
 	"sync"
 	"time"
@@ -212,6 +214,9 @@ func (e *Engine) open(opts txfile.Options) (err error) {
 	defer func() {
 		if r := recover(); r != nil {
 			err = fmt.Errorf("PANIC in open: %v", r)
+			if os.Getenv("VERIF_STACK") != "" {
+				fmt.Fprintf(os.Stderr, "%s\n", debug.Stack())
+			}
 		}
 	}()
 	e.Disk.Marker("open")
